@@ -109,6 +109,16 @@ class STIXdatetime(dt.datetime):
         self.precision_constraint = precision_constraint
         return self
 
+    def __reduce_ex__(self, protocol):
+        # datetime's own copy/pickle support rebuilds the value from its
+        # fields only; carry the format metadata along as instance state.
+        func, args = super(STIXdatetime, self).__reduce_ex__(protocol)[:2]
+        state = {
+            "precision": self.precision,
+            "precision_constraint": self.precision_constraint,
+        }
+        return func, args, state
+
     def __repr__(self):
         return "'%s'" % format_datetime(self)
 
